@@ -268,7 +268,6 @@ class JitCore(object):
         for addr_start, addr_stop in mem_range:
             self.del_block_in_range(addr_start, addr_stop)
         self.__updt_jitcode_mem_range(vm)
-        vm.reset_memory_access()
 
     def updt_automod_code(self, vm):
         """Remove jitted code updated by memory write
@@ -278,6 +277,8 @@ class JitCore(object):
         for addr_start, addr_stop in vm.get_memory_write():
             mem_range.append((addr_start, addr_stop))
         self.updt_automod_code_range(vm, mem_range)
+        # The recorded writes have been handled
+        vm.reset_memory_access()
 
     def hash_block(self, block):
         """
